@@ -50,6 +50,9 @@ KNOWN = {
     "string-literal-newline-escape": _ops('query S { search(text: "a\\nb") { __typename } }'),
     "string-literal-block-string": _ops('query S { search(text: \"\"\"block\"\"\") { __typename } }'),
 }
+SCENARIOS["mixin-with-other-directives-on-field"] = FRAGS + ('query M($inc: Boolean = true) { me @mixin(from: "pyvc_mixins", import: "OpFieldMixin") '
+                                                             '@include(if: $inc) { id name @skip(if: false) } }')
+SCENARIOS["string-literal-backslash"] = FRAGS + 'query S { search(text: "C:\\\\temp \\\\ end") { __typename } }'
 SCENARIOS["mixin-on-fragment-definition"] = FRAGS + 'fragment WithMixin on User @mixin(from: "pyvc_mixins", import: "FragDefMixin") { id }\nquery M { me { ...WithMixin } }'
 
 
